@@ -11,7 +11,7 @@ from vp import core, gen, volt, ref_guppi
 
 PROP_ID = 'C04'
 LEVEL = 'exploration'
-BUDGET = {'quick': 2400, 'thorough': 40000}
+BUDGET = {'quick': 4000, 'thorough': 40000}
 RULE = ('Hypothesis draws a small backend configuration (1-2 pols, 8/4 bit, single antenna or array, 1..45 blocks, '
         'blocks_per_file 1..45) and a header dictionary: 0..70 user cards (keys [A-Z0-9_]{1,8}; int, float and '
         'quote-free string values that fit a card) whose count is steered so that every header length modulo 32 '
@@ -25,7 +25,7 @@ RULE = ('Hypothesis draws a small backend configuration (1-2 pols, 8/4 bit, sing
 ASSUMPTIONS = ['padding is header-relative as the property states', 'empty strings, quotes and keys longer than 8 characters are not valid cards and not generated',
                'float cards are compared after float()', 'listing order is injected by replacing glob in raw_utils inside the harness process']
 REQUIRED_CLASSES = ['path_used_earlier', 'hdrmod=0', 'hdrmod=1', 'hdrmod=31', 'directio=absent', 'directio=0', 'directio=1', 'template',
-                    'notemplate', 'files=1', 'files>1', 'last_partial', 'listing_unsorted', 'bogus_owned', 'array', 'single', 'user_pktstart', 'second_recording_same_backend', 'key_starts_with_END', 'blimpy_guppiraw']
+                    'notemplate', 'files=1', 'files>1', 'last_partial', 'listing_unsorted', 'bogus_owned', 'array', 'single', 'user_pktstart', 'second_recording_same_backend', 'key_starts_with_END', 'blimpy_guppiraw', 'keys_differ_in_case_only']
 
 OWNED = ['NBITS', 'NPOL', 'OBSNCHAN', 'NANTS', 'BLOCSIZE', 'TBIN', 'CHAN_BW', 'OBSBW', 'OBSFREQ', 'SCANLEN']
 RESERVED = set(OWNED) | {'END', 'PKTIDX', 'PKTSTART', 'PKTSTOP', 'DIRECTIO', 'TELESCOP', 'OBSERVER', 'SRC_NAME'}
@@ -59,9 +59,17 @@ def strategy_(draw, tier):
         gen.finite(-1e6, 1e6).map(lambda v: ['float', v]),
         st.text(alphabet=STRCHARS, min_size=1, max_size=60).map(lambda s: s.strip() or 'x').map(lambda s: ['str', s]))
     n_user = draw(st.integers(0, 70))
-    keys = draw(st.lists(st.text(alphabet=KEYCHARS, min_size=1, max_size=8).filter(lambda k: k not in RESERVED),
+    keys = draw(st.lists(st.one_of(st.text(alphabet=KEYCHARS, min_size=1, max_size=8),
+                                   st.text(alphabet=KEYCHARS + 'abcdefghijklmnopqrstuvwxyz', min_size=1, max_size=8))
+                         .filter(lambda k: k.upper() not in RESERVED),
                          min_size=n_user, max_size=n_user, unique=True))
     cards = [[k] + draw(value) for k in keys]
+    # keys are case-sensitive: a card may differ from another one only in letter case
+    for k in draw(st.lists(st.sampled_from(keys), max_size=2, unique=True)) if keys else []:
+        twin = k.lower() if k != k.lower() else k.upper()
+        if twin != k and twin not in keys:
+            cards.insert(draw(st.integers(0, len(cards))), [twin] + draw(value))
+            keys = keys + [twin]
     # keys that merely begin with the letters END are ordinary cards
     for k in draw(st.lists(st.sampled_from(['ENDFREQ', 'ENDMJD', 'END_X', 'ENDX', 'END1']), max_size=2, unique=True)):
         if k not in keys:
@@ -106,6 +114,8 @@ def run_case(case, ctx):
             obs.cls('key_starts_with_END')
         hd[k] = v
         user[k] = (typ, v)
+    if len({k.upper() for k in hd}) < len(hd):
+        obs.cls('keys_differ_in_case_only')
     if case['directio'] != 'absent':
         hd['DIRECTIO'] = case['directio']
     if case['pktidx'] is not None:
